@@ -1280,6 +1280,9 @@ func (x *Exec) rangeStmt(n *ast.RangeStmt, label string, st *State, fr *frame, k
 	for _, g := range x.frameGoals(head, ms.mem) {
 		head.assume(g[1])
 	}
+	if lc != nil {
+		x.useClauses(lc.Use, x.specEnvAt(head, pos), head)
+	}
 	headSnap := head.clone()
 	body := x.branch(head, app("<", i.S, lenT), "body")
 	exit := x.branch(head, app("=", i.S, lenT), "exit")
